@@ -337,10 +337,12 @@ def svd(A):
     qu = [c.fresh("qu") for _ in range(4)]
     qv = [c.fresh("qv") for _ in range(4)]
     d = [c.fresh("sv") for _ in range(3)]
+    from . import polyred
     for q in (qu, qv):
         n1 = symrot.norm2(q) == 1
         for x in q:
             c.axiom(x, n1, "cons")
+        polyred.unit_hyps_of(c).add(q)
     U = symrot.new_rotation(qu, su)
     V = symrot.new_rotation(qv, sv)
     order = z3.And(d[0] >= d[1], d[1] >= d[2], d[2] >= 0)
@@ -431,8 +433,10 @@ def quaternion_of_rotation(M):
         R = symrot.quat_R(qs)
         eqs = [R[i][j] == toz(M[i, j]) for i in range(3) for j in range(3)]
         ax = z3.And([symrot.norm2(qs) == 1] + eqs)
+        from . import polyred
         for x in qs:
             c.axiom(x, ax)
+        polyred.unit_hyps_of(c).add(qs)
         q = [SymReal(x) for x in qs]
     memo[key] = q
     return q
